@@ -106,6 +106,7 @@ pub fn act_name(a: &VAct) -> &'static str {
         VAct::ReserveExact { .. } => "reserve_exact",
         VAct::TryReserve { .. } => "try_reserve",
         VAct::TryReserveExact { .. } => "try_reserve_exact",
+        VAct::TryReserveRefused { .. } => "try_reserve_refused_by_arena",
         VAct::ShrinkToFit => "shrink_to_fit",
         VAct::CloneCmp => "clone",
         VAct::IntoIter { .. } => "into_iter",
@@ -287,6 +288,7 @@ fn apply<E: Elem, V: VecLike<E>>(slot: &mut Option<V>, world: u8, act: VAct, lab
             let ok = vec.v_try_reserve_exact(ix(i, n));
             obs.n(ok as i64)
         }
+        VAct::TryReserveRefused { .. } => unreachable!("handled in step()"),
         VAct::ShrinkToFit => vec.v_shrink(),
         VAct::CloneCmp => {
             let c = vec.v_clone();
@@ -498,6 +500,28 @@ impl<E: Elem, V: VecLike<E>, S: VecLike<E>> VWorld<E, V, S> {
                 return;
             }
             _ => {}
+        }
+        let mut fa = fa;
+        if let VAct::TryReserveRefused { exact } = fa.a {
+            // (1) a reservation the arena refuses, (2) a neighbour allocated right afterwards, (3) two more elements:
+            // a failed try_reserve must leave the buffer owned by the vector, so (2) cannot land on it
+            let amount = (3usize << 20) / std::mem::size_of::<E>().max(1);
+            let bv = self.bv.as_mut().unwrap();
+            let r = arena_op(envp, step, 0, &[], || if exact { bv.v_try_reserve_exact(amount) } else { bv.v_try_reserve(amount) });
+            if let Err(p) = &r {
+                v(&mut self.viol, 13, "panics_where_std_does_not", "panics_where_std_does_not/try_reserve_refused_by_arena".into(), format!("try_reserve of {amount} elements (refused by the allocator) panicked: {:?}", p));
+            }
+            let b = self.bump();
+            let rc = arena_op(envp, step, 0, &[], || b.alloc_layout(Layout::from_size_align(8, 1).unwrap()).as_ptr() as usize);
+            if let Ok(a) = rc {
+                let tag = 500 + self.canaries.len() as u32;
+                for j in 0..8 {
+                    unsafe { *((a + j) as *mut u8) = pat(tag, 0, j) };
+                }
+                let _g = Callback::enter();
+                self.canaries.push((a, tag));
+            }
+            fa.a = VAct::ExtendIter { n: 2, hint: 0 };
         }
         let cap_before = self.bv.as_ref().unwrap().cap();
         let len_before = self.bv.as_ref().unwrap().sl().len();
@@ -952,6 +976,10 @@ impl VecModel {
             acts.push(VAct::ReserveExact { i });
             acts.push(VAct::TryReserve { i });
             acts.push(VAct::TryReserveExact { i });
+        }
+        if std::mem::size_of::<E>() > 0 && container != 2 && room >= 2 {
+            acts.push(VAct::TryReserveRefused { exact: false });
+            acts.push(VAct::TryReserveRefused { exact: true });
         }
         acts.push(VAct::ShrinkToFit);
         acts.push(VAct::CloneCmp);
